@@ -34,6 +34,7 @@ DEV_EXCLUDES = {'DevScope': ['MappingViews'], 'DevCacheLoc': ['SignerMatchesKey'
 NOKEY = ('none', 0)
 NOCERT = (NOKEY, 0)
 PFX = 'C15/KeychainSqlite3/'
+MAXK = {'n': 6}      # key slots per identity in stage C (4 in the quick tier: smaller TLC model)
 
 
 def B(b):
@@ -94,6 +95,12 @@ class Run:
         self.last_fail = None       # (okey, beneath key slots) of the step before, if it was a failure
         self.proj = None
 
+    def finish(self):
+        """End of a history: every signer still kept must be what it was."""
+        if self.store.kc is not None and self.proj is not None and self.proj['open']:
+            for kind, w in self.store.reprobe(listed=self.proj['keys']):
+                self.find(PFX + 'end-of-history/held-signer/%s' % kind, 'at the end of the history: ' + w)
+
     def close(self):
         self.store.destroy()
 
@@ -136,6 +143,15 @@ class Run:
         self.proj = proj
         for s, w in issues:
             self.find('C15/' + s, w)
+        # signers handed out earlier are values: re-probe the kept ones of the key this step is about
+        if o is not None and proj['open'] and o['op'] in ('GetSigner', 'ImportCert', 'SetDefCert'):
+            about = (res['signed_by'][0] if res.get('signed_by') else None) if o['op'] == 'GetSigner' else \
+                tuple(o['k']) if o['op'] == 'ImportCert' else tuple(o['c'][0])
+            if about is not None:
+                for kind, w in st.reprobe(only_key=about, listed=proj['keys']):
+                    self.find(PFX + '%s/held-signer/%s' % (o['op'], kind), 'after %s: %s' % (ostr(o), w))
+        elif proj['open']:
+            st.reprobe(only_key=NOKEY, listed=proj['keys'])      # only forget signers of keys that are gone
         if act == 'Step' and retry_of and o['op'] in ('DelKey', 'DelIdentity') and proj['open']:
             left = [k for k in retry_of[1] if k in proj['tpm']]
             listed = [k for k in retry_of[1] if k in proj['keys']]
@@ -303,6 +319,9 @@ def replay_steps(ids, steps):
                 stop = True
             if stop:
                 return out, False
+        nf = len(run.findings)
+        run.finish()
+        out += [(sg, w, len(steps) - 1) for sg, w in run.findings[nf:]]
         return out, True
     finally:
         run.close()
@@ -419,6 +438,7 @@ def record(rng, ids, maxkeys, length):
                 e['r'] = r
             ev.append(e)
             last = (act, o)
+        run.finish()
         return ev, list(run.findings)
     finally:
         run.close()
@@ -427,7 +447,7 @@ def record(rng, ids, maxkeys, length):
 def _record_chunk(args):
     import random
     seeds, length = args
-    return [record(random.Random(sd), ['A', 'B', 'C', 'D'], 6, length) for sd in seeds]
+    return [record(random.Random(sd), ['A', 'B', 'C', 'D'], MAXK['n'], length) for sd in seeds]
 
 
 def record_many(seeds, length, procs):
@@ -450,7 +470,7 @@ def record_many(seeds, length, procs):
 def trace_cfg(ctx, flags, name):
     invs = [i for i in INVS if not any(flags.get(f) and i in DEV_EXCLUDES[f] for f in flags)]
     p = os.path.join(tlc.BUILD, name)
-    tlc.write_cfg(p, spec='TSpec', constants=consts('{"A", "B", "C", "D"}', maxkeys=6, devs=flags), invariants=invs,
+    tlc.write_cfg(p, spec='TSpec', constants=consts('{"A", "B", "C", "D"}', maxkeys=MAXK['n'], devs=flags), invariants=invs,
                   constraints=['Mark'], postcondition='Post')
     return p, invs
 
@@ -608,14 +628,15 @@ def run(ctx):
             ctx.note('B: %d path(s) cut short at a mismatch' % unfinished)
 
     if 'C' in ctx.stages:
-        ntr, length = ctx.pick((100, 40), (1000, 40))
+        ntr, length = ctx.pick((80, 40), (1000, 40))
+        MAXK['n'] = ctx.pick(4, 6)
         recs = []
         fsc = Findings()
         seeds = [ctx.rng.getrandbits(48) for _ in range(ntr)]
         recorded = record_many(seeds, length, ctx.pick(6, 12))
         for t in range(ntr):
             ev, fnd = recorded[t]
-            rec = {'cfg': {'ids': ['A', 'B', 'C', 'D'], 'maxkeys': 6}, 'ev': ev}
+            rec = {'cfg': {'ids': ['A', 'B', 'C', 'D'], 'maxkeys': MAXK['n']}, 'ev': ev}
             recs.append(rec)
             acts = [e['a'] + ' ' + (e['o']['op'] if 'o' in e else '') for e in ev]
             if any(e['a'] == 'Fail' or ('o' in e and e['o']['op'] in ('DelKey', 'DelIdentity', 'DelCert', 'Close')) for e in ev):
@@ -674,6 +695,7 @@ def replay(ctx, path):
         print('reproduced' if hit else 'not reproduced')
         return 1 if hit else 0
     if kind == 'trace':
+        MAXK['n'] = obj['rec']['cfg'].get('maxkeys', 6)
         r, rejected, invs = judge(ctx, [obj['rec']], obj.get('flags') or detect(), 'c15-replay')
         print('rejected' if rejected else 'accepted by KeychainTrace', rejected, 'violated=%s' % r.violated)
         if obj.get('sig'):
@@ -682,6 +704,7 @@ def replay(ctx, path):
             try:
                 for e in obj['rec']['ev']:
                     run.step(e['a'], kckit_op(e['o']) if 'o' in e else None, e.get('n'))
+                run.finish()
             finally:
                 run.close()
             hit = any(s == obj['sig'] for s, _ in run.findings)
